@@ -36,7 +36,7 @@ func main() {
 		"distinct = hash(shape, pairing, API, concurrency, options, latency seed class); non-trivial = a gauge reached the Concurrency bound ∧ reach has a shared node ∧ ≥ 1 transfer")
 	r.Assume("config blobs read by target-platform selection before the graph copy are exempt from the fetch-once rule (DESIGN §3 C04)")
 	worker.Run(r, worker.Opts{Phase: "acct", Total: r.N(2000, 24000), Batch: 100, Timeout: 20 * time.Minute})
-	worker.Run(r, worker.Opts{Phase: "cberr", Total: r.N(300, 3000), Batch: 100, Timeout: 20 * time.Minute})
+	worker.Run(r, worker.Opts{Phase: "cberr", Total: r.N(600, 6000), Batch: 100, Timeout: 20 * time.Minute})
 	if bin := os.Getenv("VERIF_RACE_BIN"); bin != "" {
 		raceDir, _ := os.MkdirTemp("", "verif-c04-race-")
 		r.Cleanup(func() { os.RemoveAll(raceDir) })
@@ -82,7 +82,7 @@ func runCase(phase string, i int) worker.Result {
 		}
 		op := []string{"cb.PreCopy", "cb.PostCopy", "cb.OnCopySkipped", "cb.OnMounted", "cb.MountFrom"}[rng.IntN(5)]
 		target := nodes[rng.IntN(len(nodes))]
-		if ds := copymon.Diamonds(c.G, nodes); len(ds) > 0 && i%2 == 0 {
+		if ds := copymon.Diamonds(c.G, nodes); len(ds) > 0 && i%3 == 0 {
 			// a callback fails on a node shared by two parents while a sibling under its owner is
 			// slow: the other parent must not be released (its PostCopy would precede the failed
 			// successor's terminal notification, and its push would precede the successor)
@@ -91,6 +91,49 @@ func runCase(phase string, i int) worker.Result {
 			op = []string{"cb.PreCopy", "cb.PostCopy"}[rng.IntN(2)]
 			e.Mon.SlowNode = map[int]time.Duration{d.B: time.Duration(5+rng.IntN(15)) * time.Millisecond}
 			res.Count("cberr_diamond_cases", 1)
+		}
+		if i%3 == 1 {
+			// a callback fails on a slow node b1 while a node A outside b1's ancestry has finished
+			// waiting for its successors and queues for a slot again under Concurrency 1-2: the
+			// aborted re-acquisition must neither release a slot it does not hold nor hang
+			already := copymon.Present(ctx, e.Dst.Target, c.G)
+			in := map[int]bool{}
+			for _, n := range nodes {
+				if !already[n] {
+					in[n] = true
+				}
+			}
+			var inner []int
+			for _, n := range nodes {
+				if len(c.G.Nodes[n].Succ) > 0 && !already[n] {
+					inner = append(inner, n)
+				}
+			}
+			for try := 0; try < 8 && len(inner) >= 2; try++ {
+				a, b := inner[rng.IntN(len(inner))], inner[rng.IntN(len(inner))]
+				if a == b {
+					continue
+				}
+				ra := map[int]bool{}
+				for _, x := range c.G.Reach(a) {
+					ra[x] = true
+				}
+				var cand []int
+				for _, x := range c.G.SuccSet(b) {
+					if !ra[x] && in[x] {
+						cand = append(cand, x)
+					}
+				}
+				if ra[b] || len(cand) == 0 {
+					continue
+				}
+				target = cand[rng.IntN(len(cand))]
+				op = []string{"cb.PostCopy", "cb.PostCopy", "cb.PreCopy"}[rng.IntN(3)]
+				e.Mon.SlowNode = map[int]time.Duration{target: time.Duration(3+rng.IntN(12)) * time.Millisecond}
+				c.Conc = 1 + rng.IntN(2)
+				res.Count("cberr_blocked_reacquire_cases", 1)
+				break
+			}
 		}
 		injected = &copymon.Fault{Point: fmt.Sprintf("%s:%d#0", op, target), Kind: "error"}
 		e.Mon.Faults = append(e.Mon.Faults, injected)
